@@ -256,4 +256,27 @@ theorem inv_call (hinv : Inv sys s) (hth : s.threads[t]? = some th) {r : Ref} (h
     fresh := fun h => by simp at h
     res := fun h => sealed_eval hinv sys.fuel th.depth r (hT.call r hp) (Option.some.inj h) }
 
+/-- the request cannot be satisfied: `_facade_provide` raises ProviderNotFoundError.  Nothing shared changes; the
+    request is over, and (its program being balanced) it leaves no unbound stub behind. -/
+theorem inv_raise (hinv : Inv sys s) (hth : s.threads[t]? = some th) (hp : th.phase = .put) {l : Label} :
+    Inv sys (emit (setThread s t { th with phase := .done, result := some .notFound }) l) := by
+  have hT := hinv.threads t th hth
+  refine hinv.frame_local hth rfl rfl rfl rfl rfl (by simp [hp, Phase.isClosed]) ?_
+  exact {
+    stack := fun ha => by simp [Phase.isActive] at ha
+    sub := fun pc sub h => by simp at h
+    putEmpty := fun h => by simp at h
+    call := fun r' h => by simp at h
+    bal := hT.bal
+    nodup := hT.nodup
+    nodupVals := hT.nodupVals
+    locs := hT.locs
+    live := fun x sd hx ho => by
+      refine ⟨by simp, Or.inl ?_⟩
+      rcases live_of_run hT x sd hx ho with h | ⟨loc, h⟩
+      · exact h
+      · rw [hT.putEmpty hp] at h; cases h
+    fresh := fun h => by simp at h
+    res := by simp }
+
 end Adaptix.Threads
